@@ -4,7 +4,7 @@ import Gen.WsGen
 /-!
 # C11 — model of `WebSocket::send`, `WebSocket::receive` and the server handshake (src/WebSocket.cpp)
 
-Transcribed from the code (after the repairs 732c352, 71ac374, 7971835, d2a7e85, d352fb1):
+Transcribed from the code (after the repairs 732c352, 71ac374, 7971835, d2a7e85, 4463042, d352fb1, c7d7110, d882f64, 81c34a7):
 
 * `Rng` — `Random::getLong/get` (xoshiro256**, src/util.cpp), because the client role draws its mask
   keys from `_random`;
@@ -227,10 +227,9 @@ def readPayload : Nat → Nat → Nat → Nat → Nat → Bool × Nat
 def readFrame (msgLen : Nat) (inp : List UInt8) : Frame :=
   match inp with
   | [] => .close
-  | [_] => .close                       -- `mlen` not read: socket error, `closed()` is true
+  | [_] => .close                       -- `mlen` not read: socket error
   | b0 :: mlen :: rest =>
-    if rest.isEmpty then .close         -- second `closed()`: nothing follows the two bytes
-    else match parseExt b0 mlen rest with
+    match parseExt b0 mlen rest with
     | .close => .close
     | .ok fin opcode masked len mask rest =>
       let n := len.toNat
@@ -248,10 +247,12 @@ def readFrame (msgLen : Nat) (inp : List UInt8) : Frame :=
 def recvLoop : Nat → Conn → List UInt8 → Bool → List UInt8 × Conn
   | 0, c, msg, _ => (msg, c)
   | fuel + 1, c, msg, partialMsg =>
-    if c.isClosed then (msg, { c with closed := true })
+    -- every path that gives up on the connection returns an empty message (`WebSocketMsg().fix()`):
+    -- nothing is delivered of a message whose final frame has not arrived
+    if c.isClosed then ([], { c with closed := true })
     else match readFrame msg.length c.inp with
-    | .close => (msg, { c with closed := true, inp := [] })
-    | .fault => (msg, { c with closed := true, fault := true })
+    | .close => ([], { c with closed := true, inp := [] })
+    | .fault => ([], { c with closed := true, fault := true })
     | .ok fin opcode buffer rest =>
       let c := { c with inp := rest }
       if opcode ≤ 2 then
